@@ -45,6 +45,7 @@ type oblOutcome struct {
 	FR  *FuncResult
 	OK  bool
 	Inconclusive bool
+	Replay *ReplayOutcome
 }
 
 func hasProp(props []string, p string) bool {
@@ -61,9 +62,11 @@ func cmdCheck(args []string) {
 	prop := fs.String("property", "", "property id")
 	tier := fs.String("tier", "quick", "quick|thorough")
 	only := fs.String("func", "", "only this function (debug)")
+	onlyObl := fs.String("obligation", "", "only this obligation (replay)")
 	verbose := fs.Bool("v", false, "verbose")
 	fs.Parse(args)
 	start := time.Now()
+	curTier = *tier
 	seed := 0
 	if s := os.Getenv("VERIF_SEED"); s != "" {
 		seed, _ = strconv.Atoi(s)
@@ -141,6 +144,9 @@ func cmdCheck(args []string) {
 			if *prop != "" && !hasProp(o.Props, *prop) {
 				continue
 			}
+			if *onlyObl != "" && o.Name != *onlyObl && !o.Cover {
+				continue
+			}
 			all = append(all, &oblOutcome{O: o, FR: fr})
 		}
 	}
@@ -184,6 +190,11 @@ func cmdCheck(args []string) {
 	var knownLines []string
 	var failed []map[string]any
 	covers := 0
+	replays := 0
+	maxReplays := 3
+	if *onlyObl != "" {
+		maxReplays = 1000
+	}
 	coversInconclusive := 0
 	proofObls := 0
 	for _, oc := range all {
@@ -228,16 +239,29 @@ func cmdCheck(args []string) {
 			continue
 		}
 		violations++
+		// the solver's counterexample, replayed against the real code (at most a
+		// few per run: each replay compiles the package's tests)
+		suffix := " no-failing-input-found"
+		if !oc.O.Cover && oc.R.Status == "sat" && len(oc.R.Model) > 0 {
+			if replays < maxReplays {
+				replays++
+				oc.Replay = tryReplay(l, cs, *prop, oc)
+			} else {
+				oc.Replay = &ReplayOutcome{Status: "skipped", Reason: fmt.Sprintf("more than %d counterexamples in this run; re-run with `vc replay <file>`", maxReplays)}
+			}
+			if oc.Replay.Status == "confirmed" {
+				suffix = " replayed=confirmed"
+			} else {
+				suffix = " replayed=" + oc.Replay.Status + suffix
+			}
+		}
 		rp := writeReplay(*prop, oc)
-		suffix := ""
-		if oc.R.Status != "sat" || len(oc.R.Model) == 0 {
-			suffix = " no-failing-input-found"
-		}
-		if oc.O.Cover {
-			suffix = " no-failing-input-found"
-		}
 		fmt.Printf("VIOLATION property=%s replay=%s obligation=%s status=%s%s\n", *prop, rp, oc.O.Name, oc.R.Status, suffix)
-		failed = append(failed, map[string]any{"obligation": oc.O.Name, "status": oc.R.Status, "clause": oc.O.Src, "where": oc.O.Where})
+		frec := map[string]any{"obligation": oc.O.Name, "status": oc.R.Status, "clause": oc.O.Src, "where": oc.O.Where}
+		if oc.Replay != nil {
+			frec["replay"] = oc.Replay
+		}
+		failed = append(failed, frec)
 	}
 	for _, kl := range knownLines {
 		fmt.Println(kl)
@@ -344,6 +368,39 @@ func resolveAnchored(l *Loaded, name string) *ssa.Function {
 	return uniqueClosureWith(parent, name[i+len("$closure("):len(name)-1])
 }
 
+var curTier = "quick"
+
+// cmdReplay re-decides one recorded obligation on the current tree and replays
+// its counterexample: vc replay <replay-file.json>
+func cmdReplay(args []string) {
+	if len(args) != 1 {
+		fmt.Println("usage: vc replay <file.json>")
+		os.Exit(2)
+	}
+	b, err := os.ReadFile(args[0])
+	if err != nil {
+		fmt.Printf("TOOL-ERROR: %v\n", err)
+		os.Exit(2)
+	}
+	var rec struct {
+		Property, Obligation, Function, Tier string
+	}
+	if err := json.Unmarshal(b, &rec); err != nil || rec.Obligation == "" {
+		fmt.Printf("TOOL-ERROR: %s is not a replay record\n", args[0])
+		os.Exit(2)
+	}
+	if rec.Tier == "" {
+		rec.Tier = "quick"
+	}
+	fn := rec.Obligation
+	if i := strings.LastIndex(fn, "/"); i > 0 {
+		fn = fn[:i]
+	}
+	// evidence of a replay goes next to the replay files, not over the property's
+	os.Setenv("VERIF_EVIDENCE", filepath.Join(outDir(), "replay-evidence"))
+	cmdCheck([]string{"-property", rec.Property, "-tier", rec.Tier, "-func", fn, "-obligation", rec.Obligation})
+}
+
 func writeReplay(prop string, oc *oblOutcome) string {
 	dir := filepath.Join(outDir(), "replay", prop)
 	os.MkdirAll(dir, 0o755)
@@ -358,6 +415,8 @@ func writeReplay(prop string, oc *oblOutcome) string {
 		"status":     oc.R.Status,
 		"solver":     oc.R.Solver,
 		"model":      oc.R.Model,
+		"replay":     oc.Replay,
+		"tier":       curTier,
 		"solver_output": oc.R.Raw,
 		"smt_file":   oc.R.File,
 	}
